@@ -38,6 +38,8 @@ def build_cell(case):
         sg = SegmentGroup(id=gid)
         if len(g) > 3 and g[3]:
             sg.neuro_lex_id = g[3]
+        if len(g) > 4 and g[4]:
+            sg.notes = g[4]
         for x in mem:
             sg.members.append(Member(segments=x))
         for x in inc:
@@ -128,6 +130,32 @@ def apply_history(c, steps):
             c.morphology.segments[:] = [s for s in c.morphology.segments if s.id != st[1]]
             guarded(lambda: c.get_segment_adjacency_list())
             guarded(lambda: c.get_graph())
+        elif kind == "replace_segments":
+            # in-place edit that keeps the number of segments: each listed segment OBJECT is replaced by a fresh object
+            # with the same id / parent / proximal (st[1] = [[id, new distal | None]]); with refresh=True the documented
+            # caches are then recomputed
+            for sid, dist in st[1]:
+                for k, old in enumerate(c.morphology.segments):
+                    if old.id == sid:
+                        new = Segment(id=old.id, name=old.name)
+                        if old.parent is not None:
+                            new.parent = SegmentParent(segments=old.parent.segments, fraction_along=old.parent.fraction_along)
+                        if old.proximal is not None:
+                            new.proximal = point([old.proximal.x, old.proximal.y, old.proximal.z, old.proximal.diameter])
+                        d = dist if dist is not None else [old.distal.x, old.distal.y, old.distal.z, old.distal.diameter]
+                        new.distal = point(d)
+                        c.morphology.segments[k] = new
+                        break
+            if len(st) > 2 and st[2]:
+                guarded(lambda: c.get_segment_adjacency_list())
+                guarded(lambda: c.get_graph())
+        elif kind == "lookups":
+            # calls that look segments up by id
+            for sg in list(c.morphology.segments):
+                guarded(lambda sg=sg: c.get_segment(sg.id))
+            guarded(lambda: c.get_segment_ids_vs_segments())
+            guarded(lambda: c.get_segment_length(c.morphology.segments[-1].id))
+            guarded(lambda: c.morphinfo(True))
         else:
             raise ValueError("unknown history step %r" % (st,))
 
@@ -202,8 +230,71 @@ def run_case(case):
     return out
 
 
+def self_writes():
+    """for every method of class Cell in the bindings under test: the attributes of `self` it assigns, deletes or sets
+    through setattr / vars(self) / self.__dict__ (python ast of neuroml/nml/nml.py; fail closed: an unrecognised way of
+    writing through `self` is reported as the attribute "?")"""
+    import ast
+    import neuroml.nml.nml as m
+    tree = ast.parse(open(m.__file__).read())
+    cell = [n for n in tree.body if isinstance(n, ast.ClassDef) and n.name == "Cell"]
+    if len(cell) != 1:
+        raise RuntimeError("class Cell not found exactly once")
+    table = []
+    for f in cell[0].body:
+        if not isinstance(f, ast.FunctionDef) or not f.args.args:
+            continue
+        me = f.args.args[0].arg
+        ws = set()
+
+        def is_self(n):
+            return isinstance(n, ast.Name) and n.id == me
+
+        def target(t):
+            if isinstance(t, ast.Attribute) and is_self(t.value):
+                ws.add(t.attr)
+            elif isinstance(t, (ast.Tuple, ast.List)):
+                for e in t.elts:
+                    target(e)
+            elif isinstance(t, ast.Subscript):
+                v = t.value
+                if (isinstance(v, ast.Attribute) and is_self(v.value) and v.attr == "__dict__") or \
+                        (isinstance(v, ast.Call) and isinstance(v.func, ast.Name) and v.func.id == "vars" and v.args and is_self(v.args[0])):
+                    ws.add(t.slice.value if isinstance(t.slice, ast.Constant) and isinstance(t.slice.value, str) else "?")
+            elif isinstance(t, ast.Starred):
+                target(t.value)
+        for n in ast.walk(f):
+            if isinstance(n, ast.Assign):
+                for t in n.targets:
+                    target(t)
+            elif isinstance(n, (ast.AugAssign, ast.AnnAssign)):
+                target(n.target)
+            elif isinstance(n, ast.Delete):
+                for t in n.targets:
+                    target(t)
+            elif isinstance(n, (ast.For, ast.AsyncFor)):
+                target(n.target)
+            elif isinstance(n, ast.NamedExpr):
+                target(n.target)
+            elif isinstance(n, ast.withitem) and n.optional_vars is not None:
+                target(n.optional_vars)
+            elif isinstance(n, ast.Call) and isinstance(n.func, ast.Name) and n.func.id in ("setattr", "delattr") and n.args and is_self(n.args[0]):
+                a = n.args[1] if len(n.args) > 1 else None
+                ws.add(a.value if isinstance(a, ast.Constant) and isinstance(a.value, str) else "?")
+            elif isinstance(n, ast.Call) and isinstance(n.func, ast.Attribute) and n.func.attr in ("update", "setdefault", "pop", "clear", "__setitem__", "__setattr__"):
+                v = n.func.value
+                if (isinstance(v, ast.Attribute) and is_self(v.value) and v.attr == "__dict__") or is_self(v) or \
+                        (isinstance(v, ast.Call) and isinstance(v.func, ast.Name) and v.func.id == "vars" and v.args and is_self(v.args[0])):
+                    ws.add("?")
+        table.append([f.name, sorted(ws)])
+    return table
+
+
 def main():
     payload = json.load(sys.stdin)
+    if payload.get("mode") == "self_writes":
+        sys.stdout.write("\n" + json.dumps({"writes": self_writes()}) + "\n")
+        return
     if payload.get("recursion_limit"):
         sys.setrecursionlimit(int(payload["recursion_limit"]))
     res = [run_case(case) for case in payload["cases"]]
